@@ -27,7 +27,7 @@ ASSUMPTIONS = [
     "values are small integers stored as floats so additive sums are exact in any order (bitwise comparison is sound)",
     "coordinates are integers, as the class documents",
 ]
-PROBES = ["observation_sparse", "observation_end", "dup_in_batch", "overlap_partial", "overlap_all", "overlap_unsorted_ge2", "batch_not_sorted", "additive_fresh_coordinate",
+PROBES = ["observation_sparse", "observation_end", "integer_dtype_batch", "additive_cancels_to_zero", "dup_in_batch", "overlap_partial", "overlap_all", "overlap_unsorted_ge2", "batch_not_sorted", "additive_fresh_coordinate",
           "absent_read_rejected", "empty_batch", "value_dim_gt1", "negative_coordinate", "query_with_duplicates"]
 
 
@@ -46,9 +46,12 @@ def run_history_c46(ch, tr: Trace) -> None:
     def draw_coord():
         return tuple(ch.rng(-1, box) for _ in range(dim))
 
-    def next_value():
+    def next_value(as_int=False):
+        """Unique values; floats carry a fractional part so that a silent cast to an integer buffer is visible."""
         counter[0] += 1
-        return np.array([counter[0] * 8 + j for j in range(vdim)], dtype=float)
+        if as_int:
+            return np.array([counter[0] * 8 + j for j in range(vdim)], dtype=np.int64)
+        return np.array([counter[0] * 8 + j + 0.25 for j in range(vdim)], dtype=float)
 
     obs = Observer(ch, tr)
 
@@ -84,7 +87,17 @@ def run_history_c46(ch, tr: Trace) -> None:
                 coords.append(ch.choice(coords))
             else:
                 coords.append(draw_coord())
-        vals = [next_value() for _ in coords]
+        as_int = ch.flag(1, 5)  # nothing in the API restricts the dtype of the values handed in
+        if as_int:
+            tr.probe("integer_dtype_batch")
+        vals = []
+        for j, c in enumerate(coords):
+            if additive and not as_int and c in model and c not in coords[:j] and c not in coords[j + 1:] and ch.flag(1, 3):
+                # an additive contribution that cancels the stored value exactly: a dictionary then holds 0.0
+                vals.append(-model[c])
+                tr.probe("additive_cancels_to_zero")
+            else:
+                vals.append(next_value(as_int))
         V = np.array(vals).T  # (vdim, n)
         # classification for coverage
         in_model = [c in model for c in coords]
